@@ -212,9 +212,64 @@ class Gen:
         self.funcs.append((name, ar))
         return lines
 
+    def activation_funcs(self):
+        """functions whose result depends on every activation having its own parameters and locals: closures that
+        capture a parameter and are called after later activations (tail calls included) have run"""
+        r = self.r
+        fs, calls = [], []
+        k = r.randrange(6)
+        a, b, c = r.randint(1, 4), r.randint(2, 9), r.randint(0, 5)
+        if k == 0:      # continuation-passing tail recursion; the continuation captures the parameter
+            inner = r.choice(["ret n", "ret n * %d" % b, "ret n + k()", "n * 10 + k()"])
+            fs += ["walk :: fn n: int, k: fn -> int -> int do",
+                   "  if n <= 0 do ret k() end",
+                   "  ret walk(n - 1, fn -> int do %s end)" % inner,
+                   "end"]
+            calls.append("print(walk(%d, fn -> int do ret %d end))" % (a, c))
+        elif k == 1:    # the closure made in a tail-called activation
+            fs += ["mk :: fn n: int -> fn -> int do",
+                   "  if n > %d do ret mk(n - 1) end" % a,
+                   "  fn -> int do ret n * %d end" % b,
+                   "end"]
+            calls += ["ka :: mk(%d)" % (a + 2), "kb :: mk(%d)" % a, "print(ka() + kb())", "print(ka())"]
+        elif k == 2:    # a closure created before the recursive call and used after it
+            fs += ["hold :: fn n: int -> int do",
+                   "  if n <= 0 do ret %d end" % c,
+                   "  k :: fn -> int do ret n end",
+                   "  loc := n * %d" % b,
+                   "  r := hold(n - 1)",
+                   "  r * 10 + k() + loc",
+                   "end"]
+            calls.append("print(hold(%d))" % a)
+        elif k == 3:    # tail call as the implicit result, with swapped / shifted arguments
+            fs += ["acc :: fn n: int, x: int, y: int -> int do",
+                   "  if n <= 0 do ret x * 100 + y end",
+                   "  acc(n - 1, y, x + n)",
+                   "end"]
+            calls.append("print(acc(%d, %d, %d))" % (a, b, c))
+        elif k == 4:    # a counter per activation: closures over a mutable local, two instances alive at once
+            fs += ["counter :: fn start: int -> fn -> int do",
+                   "  cnt := start",
+                   "  fn -> int do",
+                   "    cnt += 1",
+                   "    cnt",
+                   "  end",
+                   "end"]
+            calls += ["c1 :: counter(%d)" % b, "c2 :: counter(%d)" % c, "print(c1() + c1() * 10)", "print(c2())", "print(c1())"]
+        else:           # closure capturing a parameter, passed down a tail call and called at the bottom with the live parameter
+            fs += ["down :: fn n: int, first: fn -> int -> int do",
+                   "  if n <= 0 do ret first() end",
+                   "  if n == %d do ret down(n - 1, fn -> int do ret n end) end" % a,
+                   "  ret down(n - 1, first)",
+                   "end"]
+            calls.append("print(down(%d, fn -> int do ret 99 end))" % (a + r.randint(0, 2)))
+        return fs, calls
+
     def program(self):
         r = self.r
         out = [HEADER.rstrip("\n")]
+        act_fs, act_calls = self.activation_funcs() if r.random() < 0.6 else ([], [])
+        out += act_fs
         for g in range(r.randint(0, 2)):
             nm = "g%d" % g
             out.append("%s :: %d" % (nm, r.randint(0, 9)))
@@ -257,6 +312,7 @@ class Gen:
         out += ["  print([1, 2] == [1, %s])" % self.int_atom(env, 0)]
         for name, ar in self.funcs:
             out.append("  print(%s(%s))" % (name, ", ".join(str(r.randint(0, 5)) for _ in range(ar))))
+        out += ["  " + c for c in act_calls]
         out.append("end")
         return "\n".join(out) + "\n"
 
